@@ -171,7 +171,7 @@ func ExcludedVariants(forest []*Node, o EmitOpts, rot int) []Variant {
 			}
 			if form.Name == "multi_name_share" {
 				if pos < len(d[di].Fields) {
-					d[di].Fields[pos] = shareDecl(d[di].Fields[pos], line)
+					d[di].Fields[pos] = shareDeclAt(d[di].Fields[pos], line, pos%2 == 1)
 				} else {
 					d[di].Fields = insertAt(d[di].Fields, pos, line+" int64")
 				}
@@ -251,7 +251,7 @@ func ExcludedAllForms(forest []*Node, o EmitOpts) []Variant {
 				}
 				if form.Name == "multi_name_share" {
 					if pos < len(d[di].Fields) {
-						d[di].Fields[pos] = shareDecl(d[di].Fields[pos], line)
+						d[di].Fields[pos] = shareDeclAt(d[di].Fields[pos], line, pos%2 == 1)
 					} else {
 						d[di].Fields = insertAt(d[di].Fields, pos, line+" int64")
 					}
@@ -336,6 +336,16 @@ func EmbedVariants(forest []*Node, o EmitOpts) []Variant {
 }
 
 // shareDecl turns "F1 *int32" into "F1, hid1 *int32".
+// shareDeclAt puts the extra name after the field's own name (F1, hid1 int32) or, with first set,
+// before it (hid1, F1 int32): the names after an excluded one must survive (seeded/C14m: `break`
+// instead of `continue` in the parser's loop over the names of one declaration).
+func shareDeclAt(field, extra string, first bool) string {
+	if first && strings.Contains(field, " ") {
+		return extra + ", " + field
+	}
+	return shareDecl(field, extra)
+}
+
 func shareDecl(field, extra string) string {
 	i := strings.Index(field, " ")
 	if i < 0 {
